@@ -52,6 +52,18 @@ const (
 	EDump     = "GetDumpStructStr"
 )
 
+const (
+	EEscape  = "StrEscape"
+	ETimeFmt = "GetTimeFmt"
+	EParseKV = "ParseValidNameKV"
+)
+
+var escapeInputs = []string{"", "plain", "it's \"quoted\"\n", strings.Repeat("a'b\\", 30), strings.Repeat("long \"text\" ", 12), strings.Repeat("x", 129), strings.Repeat("'y'", 90), "tab\tand\x00nul\x1a"}
+
+var timeFmtSeps = [][]string{nil, {"/"}, {"-", " "}, {"", "", ""}, {"-", " ", ":"}, {"- ", "", ":"}, {"", " ", ""}, {" ", "", ""}, {"/", ",", "/"}, {".", "T", "."}}
+
+var parseKVInputs = []string{"required", "required|必填", "to=1~3|between", "re='^a|b$'|alt", "in=(a/b)|", "le=3|x", "=|", "a=b=c|d|e", ""}
+
 var structEntries = []string{EStruct, EStructForFn, EStructForFns, ENested, EValidate, ERuleFirst, EMyFn, EChain}
 
 func (c Call) IsStruct() bool {
@@ -411,6 +423,12 @@ func (c Call) build() *args {
 		a.strs = append([]string(nil), genKV[c.Val%len(genKV)]...)
 	case c.Entry == ESplit:
 		a.str = splitInputs[c.Val%len(splitInputs)]
+	case c.Entry == EEscape:
+		a.str = escapeInputs[c.Val%len(escapeInputs)]
+	case c.Entry == ETimeFmt:
+		a.strs = append([]string(nil), timeFmtSeps[c.Val%len(timeFmtSeps)]...)
+	case c.Entry == EParseKV:
+		a.str = parseKVInputs[c.Val%len(parseKVInputs)]
 	}
 	return a
 }
@@ -540,6 +558,19 @@ func (c Call) Exec() (res Result) {
 		l := valid.ValidNamesSplit(a.str)
 		res.Handed = append(res.Handed, l...)
 		res.Canon = "list:" + strings.Join(l, "\x1f")
+	case EEscape:
+		s := valid.StrEscape(a.str)
+		res.Handed = append(res.Handed, s)
+		res.Canon = "str:" + s
+	case ETimeFmt:
+		fm := []int8{valid.DateTimeFmt, valid.DateFmt, valid.YearFmt | valid.MonthFmt, valid.YearFmt, valid.HourFmt | valid.MinFmt}[c.Rule%5]
+		s := valid.GetTimeFmt(fm, a.strs...)
+		res.Handed = append(res.Handed, s)
+		res.Canon = "str:" + s
+	case EParseKV:
+		k, v, m := valid.ParseValidNameKV(a.str)
+		res.Handed = append(res.Handed, k, v, m)
+		res.Canon = "list:" + k + "\x1f" + v + "\x1f" + m
 	case EDump:
 		s := valid.GetDumpStructStr(a.src)
 		res.Handed = append(res.Handed, s)
